@@ -638,6 +638,30 @@ fn c06_codec<C: Oracle>(rep: &mut Report, steps: usize, rng: &mut Rng) {
     for (s, m) in &snapshots {
         rep.expect(rows_of::<C>(s) == *m, "C06 clones and copied slices keep their old content", || format!("{} ...{}", C::NAME, hist));
     }
+    // every public way to build an owned sequence from a list of symbols gives that list (and can be edited on)
+    for n in [0usize, 1, 2, 7, 31, 32, 33, 64, 65, 130] {
+        let rows = rand_rows::<C>(rng, n);
+        let syms: Vec<C> = rows.iter().map(|&r| C::entry(r).sym).collect();
+        rep.case(|| format!("{} construction forms n={}", C::NAME, n));
+        let a: Seq<C> = syms.iter().copied().collect();
+        let b: Seq<C> = Seq::from(&syms);
+        let mut c: Seq<C> = Seq::with_capacity(n / 2);
+        c.extend(syms.iter().copied());
+        let mut d: Seq<C> = Seq::default();
+        Extend::extend(&mut d, syms.iter().copied());
+        let e: Seq<C> = Seq::from_iter(syms.clone());
+        let f: Seq<C> = build::<C>(&rows)[..].into();
+        for (what, x) in [("collect", &a), ("From<&Vec<A>>", &b), ("with_capacity + extend", &c), ("default + Extend", &d), ("from_iter", &e), ("From<&SeqSlice>", &f)] {
+            rep.expect(x.len() == n && rows_of::<C>(x) == rows && *x == a, "C06 every way to build an owned sequence from a list of symbols yields that list", || format!("{} {} n={} got {}", C::NAME, what, n, x));
+        }
+        let mut g = b.clone();
+        g.push(C::entry(0).sym);
+        g.remove(0..g.len().min(1));
+        let mut want = rows.clone();
+        want.push(0);
+        want.remove(0);
+        rep.expect(rows_of::<C>(&g) == want && rows_of::<C>(&b) == rows, "C06 edits behave like list edits", || format!("{} From<&Vec> then push/remove: {}", C::NAME, g));
+    }
     fn continue_check<C: Oracle>(rep: &mut Report, seq: &Seq<C>, model: &[usize], hist: &str) {
         rep.case(|| format!("{} {}", C::NAME, &hist[hist.len().saturating_sub(80)..]));
         rep.expect(seq.len() == model.len() && rows_of::<C>(seq) == model, "C06 edits behave like list edits", || format!("{} history ...{} got {} want rows {:?}", C::NAME, &hist[hist.len().saturating_sub(160)..], seq, model));
@@ -845,6 +869,16 @@ fn c08_k<C: Oracle, const K: usize>(rep: &mut Report, rng: &mut Rng) {
             }
             let r2: Result<Kmer<C, K>, _> = Kmer::try_from(sl.to_owned());
             rep.expect(r2.is_ok() == (n == K), "C08 try_from an owned sequence succeeds exactly for length K", || format!("{} K={} n={}", C::NAME, K, n));
+            if n == K {
+                // the other construction routes agree with try_from
+                let a: Kmer<C, K> = Kmer::try_from(sl).unwrap();
+                let b: Kmer<C, K> = Kmer::unsafe_from_seqslice(sl);
+                let c: Kmer<C, K> = Kmer::try_from(sl.to_owned()).unwrap();
+                rep.expect(a.bs == b.bs && a.bs == c.bs && b.to_string() == sl.to_string() && rows_of::<C>(&*b) == rows, "C08 every construction route gives the k-mer of those symbols", || format!("{} K={} {} / {} / {}", C::NAME, K, a, b, c));
+                if K * C::BITS as usize <= 64 {
+                    rep.expect(Ok(usize::from(&a)) == usize::try_from(sl), "C08 a k-mer and its slice pack to the same integer", || format!("{} K={} {}", C::NAME, K, a));
+                }
+            }
         });
     }
     // invalid text of the right length
